@@ -151,6 +151,14 @@ func (c *Channel) Read() ([]byte, error) {
 		return nil, util.ErrConnectionError
 	}
 
+	select {
+	case <-c.done:
+		// closed, but the read loop may still be stuck in a transport read that never returns; nothing
+		// more will come, an operation in flight should not wait for its timeout
+		return nil, util.ErrConnectionError
+	default:
+	}
+
 	b := c.Q.Dequeue()
 
 	if b == nil {
